@@ -111,6 +111,91 @@ def install():
         env.note("pid")
         return env.pid
 
+    # ---- os-level file API on simulated paths
+    for name in ("open", "fdopen", "write", "read", "close", "rename", "replace", "remove", "unlink",
+                 "listdir", "makedirs", "mkdir", "stat", "lstat", "access"):
+        _real["os." + name] = getattr(os, name)
+
+    def _sim_path(p):
+        fs = WORLD.fs
+        if fs is None or isinstance(p, int):
+            return None
+        try:
+            n = fs.norm(p)
+        except TypeError:
+            return None
+        return fs if fs.is_sim(n) else None
+
+    def sim_os_open(path, flags, mode=0o777, *a, **kw):
+        fs = _sim_path(path)
+        return _real["os.open"](path, flags, mode, *a, **kw) if fs is None else fs.os_open(path, flags, mode)
+
+    def sim_os_fdopen(fd, *a, **kw):
+        fs = WORLD.fs
+        if fs is not None and fs.is_fake_fd(fd):
+            return fs.os_fdopen(fd, *a, **kw)
+        return _real["os.fdopen"](fd, *a, **kw)
+
+    def sim_os_write(fd, data):
+        fs = WORLD.fs
+        return fs.os_write(fd, data) if fs is not None and fs.is_fake_fd(fd) else _real["os.write"](fd, data)
+
+    def sim_os_read(fd, n):
+        fs = WORLD.fs
+        return fs.os_read(fd, n) if fs is not None and fs.is_fake_fd(fd) else _real["os.read"](fd, n)
+
+    def sim_os_close(fd):
+        fs = WORLD.fs
+        return fs.os_close(fd) if fs is not None and fs.is_fake_fd(fd) else _real["os.close"](fd)
+
+    def sim_os_rename(src, dst, *a, **kw):
+        fs = _sim_path(src) or _sim_path(dst)
+        return _real["os.rename"](src, dst, *a, **kw) if fs is None else fs.os_rename(src, dst)
+
+    def sim_os_remove(path, *a, **kw):
+        fs = _sim_path(path)
+        return _real["os.remove"](path, *a, **kw) if fs is None else fs.os_remove(path)
+
+    def sim_os_listdir(path="."):
+        fs = _sim_path(path)
+        return _real["os.listdir"](path) if fs is None else fs.os_listdir(path)
+
+    def sim_os_makedirs(path, mode=0o777, exist_ok=False):
+        fs = _sim_path(path)
+        return _real["os.makedirs"](path, mode, exist_ok) if fs is None else fs.os_makedirs(path, mode, exist_ok)
+
+    def sim_os_mkdir(path, mode=0o777, *a, **kw):
+        fs = _sim_path(path)
+        return _real["os.mkdir"](path, mode, *a, **kw) if fs is None else fs.os_makedirs(path, mode, False)
+
+    def sim_os_stat(path, *a, **kw):
+        fs = _sim_path(path)
+        if fs is None:
+            return _real["os.stat"](path, *a, **kw)
+        if WORLD.env is not None:
+            fs.stat_time = WORLD.env.clock
+        return fs.os_stat(path)
+
+    def sim_os_access(path, mode, *a, **kw):
+        fs = _sim_path(path)
+        return _real["os.access"](path, mode, *a, **kw) if fs is None else fs.exists(path)
+
+    os.open = sim_os_open
+    os.fdopen = sim_os_fdopen
+    os.write = sim_os_write
+    os.read = sim_os_read
+    os.close = sim_os_close
+    os.rename = sim_os_rename
+    os.replace = sim_os_rename
+    os.remove = sim_os_remove
+    os.unlink = sim_os_remove
+    os.listdir = sim_os_listdir
+    os.makedirs = sim_os_makedirs
+    os.mkdir = sim_os_mkdir
+    os.stat = sim_os_stat
+    os.lstat = sim_os_stat
+    os.access = sim_os_access
+
     builtins.open = sim_open
     io.open = sim_open
     os.path.isdir = sim_isdir
